@@ -31,11 +31,14 @@ var svEthKeys = []struct{ priv, addr string }{
 	{"8da4ef21b864d2cc526dbdb2a120bd2874c36c9d0a1fb7f8c63d7f7a8b41de8f", "63fac9201494f0bd17b9892b9fae4d52fe3bd377"},
 }
 
+// svEthAddr: the address of OLVM party i's secp256k1 key.
+func svEthAddr(i int) keys.Address { return keys.Address(ethcmn.FromHex(svEthKeys[i].addr)) }
+
 // svUseEthParties gives parties 0 and 1 the addresses of their secp256k1 keys.
 func svUseEthParties() {
 	svParty_(1)
 	for i := range svEthKeys {
-		svParties[i].Addr = keys.Address(ethcmn.FromHex(svEthKeys[i].addr))
+		svParties[i].Addr = svEthAddr(i)
 	}
 }
 
@@ -179,7 +182,7 @@ func svSignOLVM(raw action.RawTx, party int) action.SignedTx {
 		sig, _ = svParty_(party).Priv.Sign(svOLVMDigest(tx, raw.Fee, chain))
 	} else {
 		key, err := ethcrypto.HexToECDSA(svEthKeys[party].priv)
-		if err != nil || !keys.Address(ethcrypto.PubkeyToAddress(key.PublicKey).Bytes()).Equal(svParty_(party).Addr) {
+		if err != nil || !keys.Address(ethcrypto.PubkeyToAddress(key.PublicKey).Bytes()).Equal(svEthAddr(party)) {
 			panic("sv: secp256k1 key table is wrong")
 		}
 		var to *ethcmn.Address
@@ -219,7 +222,7 @@ func svModel_validateSigner(tx *olvm.Transaction, ctx *action.Context, signedTx 
 	d := svOLVMDigest(tx, signedTx.RawTx.Fee, chain)
 	for i := range svEthKeys {
 		if svParty_(i).Priv.PubKey().VerifyBytes(d, sig) {
-			if !tx.From.Equal(svParty_(i).Addr) {
+			if !tx.From.Equal(svEthAddr(i)) {
 				return errors.New("mismatch sender")
 			}
 			return nil
@@ -466,4 +469,58 @@ func SV_C17_two_step() {
 		}
 	}
 	agree()
+}
+
+// SV_C06_failed_olvm_leaves_no_trace: a block with a refused OLVM transaction
+// between two others ends exactly like the block without it.
+//
+// sv:bounds as SV_C17_two_step: replica 1 delivers tx1, tx2, tx3 (two admitted transfers from A, then a third with the then-current nonce), replica 2 delivers tx1 and tx3 only; paths on which tx2 is refused at delivery
+// sv:outside refused transactions of other kinds in a sequence (their handlers keep no per-transaction memory except the shared store selectors examined by the residue choices of C12 / C14 / C15); other orders
+// sv:goal both replicas end with the same ledger, the same nonce and the same block writes (keys, order, values): the refused transaction left nothing in the stores or in the EVM adapter's memory
+func SV_C06_failed_olvm_leaves_no_trace() {
+	svCurrencyLimit = 1
+	sv.NominalSizes(64)
+	svUseEthParties()
+	build := func() *svEnv {
+		e := svNewEnv(2, 20, func(e *svEnv) {
+			e.app.Context.stateDB.SetBlockHash(ethcmn.BytesToHash([]byte{1}))
+		})
+		sv.Assume(e.ledger().get("b:A:OLT").Cmp(svTwo128) < 0 && e.ledger().get("b:B:OLT").Cmp(svTwo128) < 0)
+		return e
+	}
+	to := svParty_(1).Addr
+	mk := func(tag string, nonce uint64) action.SignedTx {
+		msg := &olvm.Transaction{Nonce: nonce, From: svParty_(0).Addr, To: &to,
+			Amount:  action.Amount{Currency: "OLT", Value: *balance.NewAmountFromBigInt(sv.BigInt(tag + ".amount"))},
+			ChainID: utils.HashToBigInt(svHeader(0).ChainID)}
+		data, err := msg.Marshal()
+		if err != nil {
+			sv.Unreachable("marshal")
+		}
+		raw := action.RawTx{Type: action.OLVM, Data: data, Memo: strconv.FormatUint(nonce, 10),
+			Fee: action.Fee{Price: action.Amount{Currency: "OLT", Value: *balance.NewAmountFromBigInt(sv.BigInt(tag + ".price"))}, Gas: sv.Int64(tag + ".gas")}}
+		return svSignOLVM(raw, 0)
+	}
+	e1, e2 := build(), build()
+	tx1, tx2 := mk("tx1", 0), mk("tx2", 1)
+	sv.Assume(e1.validate(tx1))
+	sv.Assume(e1.validate(tx2))
+	r1 := svDeliver(e1.app, tx1)
+	r2 := svDeliver(e1.app, tx2)
+	sv.Assume(r1.Code == 0 && r2.Code != 0)
+	tx3 := mk("tx3", 1)
+	sv.Assume(e1.validate(tx3))
+	r3 := svDeliver(e1.app, tx3)
+	// the twin without the refused transaction
+	q1 := svDeliver(e2.app, tx1)
+	q3 := svDeliver(e2.app, tx3)
+	sv.Assert(q1.Code == r1.Code && q3.Code == r3.Code && q3.GasUsed == r3.GasUsed, "same-results-without-the-refused-transaction")
+	l1, l2 := e1.ledger(), e2.ledger()
+	for k, c := range l1.cells {
+		sv.Assert(c.V.Cmp(l2.cells[k].V) == 0, "same-ledger-without-the-refused-transaction")
+	}
+	sv.Assert(e1.nonceOf(svParty_(0).Addr) == e2.nonceOf(svParty_(0).Addr), "same-nonce-without-the-refused-transaction")
+	sv.Assert(svSameWrites(svBlockWrites(e1.app), svBlockWrites(e2.app)), "same-block-writes-without-the-refused-transaction")
+	sv.Observe("code3", r3.Code)
+	sv.Cover(r3.Code == 0, "third-executed")
 }
